@@ -28,7 +28,8 @@ ASSUME = ['mc/ref/lpexact.py (exact two-phase simplex) and mc/ref/pwl.py (epigra
           'independent of cvxopt (plain Python, Fractions)',
           'default solver options (abstol 1e-7, reltol 1e-6, feastol 1e-7; tighter tolerances make the default solver '
           'stop with "singular KKT matrix"/unknown on well-posed degenerate-vertex LPs, which is not a C12 matter); '
-          'comparisons: constraints 1e-6 (1+|v|), objective vs exact optimum 1e-6 (1+|p*|), dual function 1e-5 (1+|p*|), '
+          'comparisons: constraints 1e-6 (1+|v|), objective vs exact optimum 5e-6 (1+|p*|) (reltol of the solver is 1e-6), '
+          'between configurations 1e-5, dual function 1e-5 (1+|p*|), '
           'evaluation of objective/constraint functions 1e-9',
           'status is demanded only when the exact LP satisfies the rank assumptions of solvers.lp and is strictly '
           'primal and dual feasible (-> optimal) / has a strict Farkas certificate (-> primal infeasible) / a strictly '
@@ -65,7 +66,9 @@ BOUNDS = {'quick': '13 objective forms x (22 single constraint forms + 66 ordere
                       '2 variants of the objective), 13 objective forms x 44 ordered triples ((i, i+2, i+7), (i, i+5, i+11) '
                       'mod 22) with 2 variants per form; 4 configurations per problem (1.25e5 problems, 5e5 solves)'}
 
-TOLF = 1e-6      # feasibility / optimal value
+TOLF = 1e-6      # feasibility (feastol 1e-7 relative to the data)
+TOLV = 5e-6      # optimal value: the default solver stops at gap <= max(abstol 1e-7, reltol 1e-6 |p|) with residuals 1e-7,
+                 # i.e. |value - p*| up to ~2e-6 (1+|p*|); observed maximum 9.3e-7
 TOLD = 1e-5      # dual function
 TOLE = 1e-9      # evaluation of functions
 P0 = [0.75, -1.25, 2.5, -0.5]           # fixed probe point (dyadic)
@@ -592,7 +595,7 @@ def judge(R, ob, cfg, st):
         return viol
     e = _rel(ov['v'][0], pf)
     st['maxerr']['objective vs exact'] = max(st['maxerr'].get('objective vs exact', 0.0), e)
-    if e > TOLF:
+    if e > TOLV:
         V('optimal:objective-value-vs-exact', 'objective.value() = %r, exact optimal value %r (point %r)' % (ov['v'][0], pf, [float(t) for t in pt]))
         return viol
     # multipliers
@@ -664,7 +667,7 @@ def cross(R, obs, st):
         for b in range(a + 1, len(opt)):
             (ca, oa), (cb, ob_) = opt[a], opt[b]
             va, vb = oa['objval']['v'][0], ob_['objval']['v'][0]
-            if _rel(va, vb) > TOLF:
+            if _rel(va, vb) > 2 * TOLV:
                 viol.append({'key': 'C12:agreement:objective-value', 'msg': '%s-%s gives %r, %s-%s gives %r'
                              % (ca[0], ca[1], va, cb[0], cb[1], vb), 'sub': {'problem': R.prob}})
                 return viol
@@ -694,8 +697,14 @@ def run(case):
         obs = []
         new = []
         for cfg in CONFIGS:
-            ob = observe(prob, cfg[0], cfg[1])
             nev += 1
+            try:
+                ob = observe(prob, cfg[0], cfg[1])
+            except Exception as ex:      # building, probing or reading results failed (solve() itself is caught in observe)
+                import traceback
+                new.append({'key': 'C12:build-or-readback:exception:%s:%s-%s' % (type(ex).__name__, cfg[0], cfg[1]),
+                            'msg': traceback.format_exc()[-1200:], 'sub': {'problem': prob, 'format': cfg[0], 'solver': cfg[1]}})
+                continue
             obs.append((cfg, ob))
             new += judge(R, ob, cfg, st)
         if not new:
